@@ -141,7 +141,7 @@ class Check:
         replay_dir = os.path.join(VERIF, "replay", self.pid)
         shown = 0
         for key, (summary, case) in self.violations.items():
-            if shown >= 100:
+            if shown >= int(os.environ.get('KV_REPLAY_CAP', '100')):
                 shown += 1
                 continue
             os.makedirs(replay_dir, exist_ok=True)
